@@ -1,4 +1,10 @@
+#[cfg(not(pendulum_project_ntpd_rs_verif))]
 use std::{collections::HashMap, fmt::Debug, time::Duration};
+#[cfg(pendulum_project_ntpd_rs_verif)]
+use {
+    crate::verif::DetHashMap as HashMap,
+    std::{fmt::Debug, time::Duration},
+};
 
 pub(crate) use source::AveragingBuffer;
 use source::OneWayKalmanSourceController;
@@ -23,6 +29,9 @@ pub(super) mod config;
 mod matrix;
 mod select;
 mod source;
+#[cfg(pendulum_project_ntpd_rs_verif)]
+#[path = "/verif/hooks/ntp_proto/kalman_probe.rs"]
+mod verif_probe;
 
 pub use source::{KalmanSourceController, TwoWayKalmanSourceController};
 
@@ -240,6 +249,8 @@ impl<C: NtpClock> KalmanClockController<C> {
                 error!(
                     "Unusually large clock step suggested, please manually verify system clock and reference clock state and restart if appropriate. If the clock is significantly wrong, you can use `ntp-ctl force-sync` to correct it."
                 );
+                #[cfg(pendulum_project_ntpd_rs_verif)]
+                panic!("Threshold exceeded");
                 #[cfg(not(test))]
                 std::process::exit(crate::exitcode::SOFTWARE);
                 #[cfg(test)]
@@ -259,6 +270,8 @@ impl<C: NtpClock> KalmanClockController<C> {
                 error!(
                     "Unusually large clock step suggested, please manually verify system clock and reference clock state and restart if appropriate. If the clock is significantly wrong, you can use `ntp-ctl force-sync` to correct it."
                 );
+                #[cfg(pendulum_project_ntpd_rs_verif)]
+                panic!("Threshold exceeded");
                 #[cfg(not(test))]
                 std::process::exit(crate::exitcode::SOFTWARE);
                 #[cfg(test)]
